@@ -149,6 +149,16 @@ example (sch : List (Fin 3)) (s : St) (i : Fin 3)
       sch (fun j : Fin 3 => (⟨Nat, addVia (20 + j.val) 7 (10 + j.val)⟩ : Thread)) s
       (fun j => addVia_fp (20 + j.val) 7 (10 + j.val) s) i hd).1
 
+/-- … and the "all threads finish" hypothesis of `interleaving_is_sequential` is satisfiable: round-robin for
+six rounds lets the three threads finish from the memory `mem0` (cell `a` holds `a`), and thread 1 has then
+returned `11 + 7` -/
+example :
+    let ps : Fin 3 → Thread := fun j => ⟨Nat, addVia (20 + j.val) 7 (10 + j.val)⟩
+    let sch : List (Fin 3) := [0, 1, 2, 0, 1, 2, 0, 1, 2, 0, 1, 2, 0, 1, 2, 0, 1, 2]
+    (∀ i, ((runPool sch ps Props.C12.mem0).1 i).isDone = true) ∧
+    (runPool sch ps Props.C12.mem0).2.data 11 = 18 := by
+  decide
+
 /-! ## the remaining offender: a call counter in static storage (`tmpfile_s` / `tmpnam_s`, known finding
 `tmpfile-count`)
 
